@@ -464,8 +464,14 @@ NON_ASCII_ALNUM = ["\u0663", "\u00b2", "\uff11", "\u00e9", "\uff41", "\u2167"]
 _JUNK = ["", "{", "}", "(", ")", "[", "]", ":", "!", "$", "@", "=", "|", "&", "...", "..", ".", "on",
          '"', '"""', "\\", "\x00", "\x07", "\x0b", "\x7f", "-", "1", "1.", "1e", "0x1", "01", "1a", "-a",
          '"\\', '"\\u', '"\\u00', '"\\u00zz"', '"\\q"', '"\n"', "#", "?", "%", "~", " ", "٣", "²",
+         '"\\u12g4"', '"\\uZZZZ"', '"\\u 041"', '"\\u00-1"', '"\\u+041"', '"\\u004"', '"\\u{41}"', '"a\\u00e"', '"\\U0041"',
          '"on"', '"implements"', '"extend"', '"fragment"', '"query"', '"type"', '"schema"', "true", "null",
          "extend", "schema", "implements", "fragment"]
+
+
+BAD_ESCAPES = ["\\u12g4", "\\uZZZZ", "\\u 041", "\\u00-1", "\\u+041", "\\u{41}", "\\x41", "\\q", "\\'", "\\U0041", "\\u004", "\\0", "\\a",
+               "\\u004 ", "\\u00e\t", "\\u041\u00a0", "\\u0_41", "\\u00_1", "\\u 041", "\\u004\x0c", "\\u-041", "\\u0x41"]
+GOOD_ESCAPES = ["\\u0041", "\\u00e9", "\\uD83D\\uDE00", "\\n", "\\t", "\\/", "\\\\", "\\\"", "\\b\\f\\r"]
 
 
 @st.composite
@@ -473,7 +479,7 @@ def mutated(draw, tokens):
     """-> (label, new_tokens_or_text, is_text)."""
     toks = list(tokens)
     n = len(toks)
-    k = draw(st.integers(0, 9))
+    k = draw(st.integers(0, 10))
     if n == 0:
         return ("junk-only", [draw(st.sampled_from(_JUNK))], False)
     i = draw(st.integers(0, n - 1))
@@ -512,7 +518,7 @@ def mutated(draw, tokens):
                 p = t.index("\\u") + 2 + draw(st.integers(0, 3))
             else:
                 p = draw(st.integers(0, len(t) - 1))
-            c = draw(st.sampled_from(NON_ASCII_ALNUM))
+            c = draw(st.sampled_from(NON_ASCII_ALNUM + (["g", "z", " ", "-", "G", "x"] if "\\u" in t else [])))
             if draw(st.booleans()):
                 toks[x] = t[:p] + c + t[p + 1:]
             else:
@@ -528,6 +534,19 @@ def mutated(draw, tokens):
         p = draw(st.integers(0, len(text)))
         c = draw(st.sampled_from(["\x00", "\x08", "\x0b", "\x0c", "\x1f", "\x7f", "\u2028", "\ufeff", "\ud800", "\\", '"', "."]))
         return ("inject-char", text[:p] + c + text[p:], True)
+    if k == 10:
+        # a malformed (or unusual but legal) escape sequence inside an existing quoted string, where strings are allowed
+        idx = [x for x, t in enumerate(toks) if len(t) >= 2 and t[0] == '"' and not t.startswith('"""')]
+        if idx:
+            x = draw(st.sampled_from(idx))
+            esc = draw(st.sampled_from(BAD_ESCAPES + GOOD_ESCAPES))
+            t = toks[x]
+            p = draw(st.integers(1, len(t) - 1))
+            if t[p - 1] == "\\":
+                p = len(t) - 1
+            toks[x] = t[:p] + esc + t[p:]
+            return ("escape-in-string", toks, False)
+        return ("noop", toks, False)
     # drop a balanced region / the body of an extend
     j = draw(st.integers(i, min(n, i + 4)))
     del toks[i:j]
